@@ -54,6 +54,8 @@ def gen_cases(rng, tier: str) -> list[dict]:
 def check_cases(cases: list[dict], rep: Report, known: dict) -> None:
     ncs = []
     for c in cases:
+        if rep.stop():
+            break
         pool = H.build_pool(c["pool"])
         hist = H.Runner(pool)
         rep.case((tuple(c["pool"]), str(c["ops"])), len(c["ops"]) >= 3)
